@@ -3,6 +3,8 @@ package main
 import (
 	"fmt"
 	"go/token"
+	"go/types"
+	"sort"
 	"strings"
 
 	"golang.org/x/tools/go/ssa"
@@ -16,7 +18,7 @@ func init() {
 		Title:       "Unsafe or inconsistent configurations are refused at startup",
 		DesignRef:   "DESIGN.md §3 C18",
 		Technique:   "guard inventory by edge-cut reachability on config.Load / NewHandler (the normal return must be unreachable when a refusal row holds; log.Fatal blocks terminate paths) + pairing of short-key guards with CSPRNG substitution + callee resolution of the random source + start-up value-flow of keys",
-		LevelText:   "Static: for each of the six documented unsafe combinations, when both conjuncts of the row hold no path of config.Load (resp. Config.NewHandler) reaches its normal return — every such path ends in log.Fatal*; the mechanism predicates compare with the documented words. For each of the five keys, every path to Load's return either crossed an edge establishing len(key) >= 32 or stored the result of security.GenerateRandomString(n >= 32) into that key (the user-token key only under its enable switch). The generator draws only from crypto/rand and returns n characters of a constant alphabet. main loads the configuration and builds the handler before serving, and copies each key into the variable its consumer reads; each consumer refuses keys shorter than 32.",
+		LevelText:   "Static: for each of the six documented unsafe combinations, when both conjuncts of the row hold no path of config.Load (resp. Config.NewHandler) reaches its normal return — every such path ends in log.Fatal*; the mechanism predicates compare with the documented words. For each of the five keys, every path to Load's return either crossed an edge establishing len(key) >= 32 or stored the result of security.GenerateRandomString(n >= 32) into that key (the user-token key only under its enable switch). The generator draws only from crypto/rand and returns n characters of a constant alphabet. main loads the configuration and builds the handler before serving, and copies each key into the variable its consumer reads; each consumer refuses keys shorter than 32. The settings the refusals test are compared as raw text everywhere, including the struct fields they are copied into (a consumer that lower-cases or trims its copy would treat spellings as the refused value that Load let through).",
 		LevelNote:   "Trusted: koanf file/environment loading and precedence, log.Fatal* not returning. Not decided: that two instances draw different random keys (probability), configuration parsing itself.",
 		Explanation: "C18/fatal-guards: per row, the CFG edges on which one of the row's conjuncts is false are deleted; the function's return must then be unreachable. C18/key-substitution: per key, edges establishing len >= 32 and the substitution store are deleted/marked; the return must be unreachable. C18/csprng resolves callees in security/string.go. C18/mechanism-words checks the ...Enabled() predicates. C18/wiring and C18/downstream-minimums follow keys from the configuration to their consumers.",
 		Assumptions: []string{"log.Fatal, log.Fatalf and log.Fatalln terminate the process"},
@@ -30,7 +32,9 @@ func init() {
 			{"C18/mechanism-words", "OpenIDEnabled / KerberosEnabled / BasicAuthEnabled / NtlmEnabled test membership of the documented words", c18Words},
 			{"C18/wiring", "main: Load and NewHandler precede serving; every key is copied to the variable its consumer reads", c18Wiring},
 			{"C18/downstream-minimums", "session store, PAA, user and query token code refuse keys shorter than 32", c18Downstream},
-			{"C18/config-tags", "the configuration fields this property depends on are read from the documented keys: koanf tag = lower-cased field name", func(c *Ctx) { configTags(c, "C18/config-tags", map[string][]string{"Configuration": {"*"}, "ServerConfig": {"*"}, "SecurityConfig": {"*"}, "KerberosConfig": {"*"}, "RDGCapsConfig": {"TokenAuth"}}) }},
+			{"C18/config-tags", "the configuration fields this property depends on are read from the documented keys: koanf tag = lower-cased field name", func(c *Ctx) {
+				configTags(c, "C18/config-tags", map[string][]string{"Configuration": {"*"}, "ServerConfig": {"*"}, "SecurityConfig": {"*"}, "KerberosConfig": {"*"}, "RDGCapsConfig": {"TokenAuth"}})
+			}},
 			{"C18/settings-writers", "the settings the refusals test are written only by the configuration loader", func(c *Ctx) { settingsWriters(c, "C18/settings-writers") }},
 		},
 	})
@@ -737,6 +741,92 @@ func c18RawCompare(c *Ctx) {
 				}
 			}
 		})
+	}
+	// the same settings after they were copied into another package's configuration or handler
+	// struct (web.Config.HostSelection, Handler.hostSelection): a consumer that normalises its
+	// copy treats spellings as the refused value that the loader's raw comparison let through
+	carrier := map[*types.Var]string{}
+	loadedField := func(v ssa.Value) (*types.Var, bool) {
+		u, ok := strip(v).(*ssa.UnOp)
+		if !ok || u.Op != token.MUL {
+			return nil, false
+		}
+		fa, ok := u.X.(*ssa.FieldAddr)
+		if !ok {
+			return nil, false
+		}
+		_, fld, ok := fieldOfAddr(fa)
+		return fld, ok
+	}
+	isSetting := func(fld *types.Var) (string, bool) {
+		if fld == nil {
+			return "", false
+		}
+		if watch[fld.Name()] && fld.Pkg() != nil && fld.Pkg().Path() == cfgPkgPath {
+			return fld.Name(), true
+		}
+		n, ok := carrier[fld]
+		return n, ok
+	}
+	for changed, round := true, 0; changed && round < 4; round++ {
+		changed = false
+		for _, f := range c.allFirstPartyFuncs() {
+			eachInstr(f, func(in ssa.Instruction) {
+				st, ok := in.(*ssa.Store)
+				if !ok {
+					return
+				}
+				fa, ok := st.Addr.(*ssa.FieldAddr)
+				if !ok {
+					return
+				}
+				_, dst, ok := fieldOfAddr(fa)
+				if !ok || dst.Pkg() == nil || !strings.HasPrefix(dst.Pkg().Path(), modPath) {
+					return
+				}
+				if src, ok := loadedField(st.Val); ok {
+					if name, ok := isSetting(src); ok && src != dst {
+						if _, seen := carrier[dst]; !seen && !(watch[dst.Name()] && dst.Pkg().Path() == cfgPkgPath) {
+							carrier[dst] = name
+							changed = true
+						}
+					}
+				}
+			})
+		}
+	}
+	for _, f := range c.allFirstPartyFuncs() {
+		f := f
+		eachInstr(f, func(in ssa.Instruction) {
+			u, ok := in.(*ssa.UnOp)
+			if !ok || u.Op != token.MUL {
+				return
+			}
+			fld, ok := loadedField(u)
+			if !ok {
+				return
+			}
+			name, isCarrier := carrier[fld]
+			if !isCarrier {
+				return
+			}
+			for _, r := range *u.Referrers() {
+				if x, ok := r.(*ssa.Call); ok {
+					cn := calleeName(x)
+					if strings.HasPrefix(cn, "strings.") || strings.HasPrefix(cn, "bytes.") || strings.HasPrefix(cn, "unicode.") {
+						c.Bad(rule, name+" copy "+fld.Name()+" "+cn+" in "+shortFn(f), x.Pos(), "%s (a copy of the setting %s) is normalised with %s, while config.Load's refusal compares the raw text: a spelling such as \"Signed\" passes the refusal and is then treated as the refused value", fld.Name(), name, cn)
+					}
+				}
+			}
+		})
+	}
+	if len(carrier) > 0 {
+		var cs []string
+		for f, n := range carrier {
+			cs = append(cs, n+"->"+f.Pkg().Name()+"."+f.Name())
+		}
+		sort.Strings(cs)
+		c.OK(rule, "setting copies", token.NoPos, "copies of the tested settings followed into %d struct fields (%s): none is normalised by its consumers", len(carrier), strings.Join(cs, ", "))
 	}
 	if n == 0 {
 		c.Undecided(rule, "settings uses", token.NoPos, "no comparison of Tls/HostSelection/SessionStore found in config or main")
